@@ -546,6 +546,17 @@ carquet_column_reader_t* carquet_reader_get_column(
     int32_t schema_idx = reader->schema->leaf_indices[column_index];
     const parquet_schema_element_t* schema_elem = &reader->schema->elements[schema_idx];
 
+    /* The chunk and the schema leaf must agree on the physical type: readers
+     * size value buffers from either of them. */
+    if (!schema_elem->has_type || schema_elem->type != col_reader->col_meta->type) {
+        int chunk_type = (int)col_reader->col_meta->type;
+        free(col_reader);
+        CARQUET_SET_ERROR(error, CARQUET_ERROR_INVALID_METADATA,
+            "Column %d: chunk type %d does not match the schema",
+            column_index, chunk_type);
+        return NULL;
+    }
+
     col_reader->max_def_level = reader->schema->max_def_levels[column_index];
     col_reader->max_rep_level = reader->schema->max_rep_levels[column_index];
     col_reader->type = col_reader->col_meta->type;
